@@ -17,7 +17,8 @@ RULE = ('histories of grid edits as JSON op lists whose arguments are indices re
         'operation the structural invariant is evaluated and the grid compared with an abstract reference model '
         '(ordered names, oriented pairs, rock names). Non-trivial = history with >= 2 different operation kinds '
         'including a rename, reorder or delete; distinct = distinct history JSON.'
-        " Also: MINC with clashing generated names (refusal ends the history, acceptance is judged), demote with repeated names, rename targets in the simulator's printed form ('qq1 5').")
+        " Also: MINC with clashing generated names (refusal ends the history, acceptance is judged), demote with repeated names, rename targets in the simulator's printed form ('qq1 5')."
+        ' Rounds 7-9: five-character rock names and over-long rename targets; set_rocktype (one block / all atmosphere-flagged blocks) and an atmosphere-flagged start block; reorders refused for an unknown pair at every position; a held block object added again.')
 ASSUMPTIONS = ['preconditions from the code/docs are honoured by construction: new block names are unused, connections join two '
                'present distinct blocks not already connected in either orientation, deleted rock types are unused, rename '
                'targets do not collide with an unrenamed block, MINC only when the default matrix names are free',
